@@ -36,11 +36,18 @@ def _norm(src: str) -> str:
     return ast.unparse(ast.parse(src, mode="eval").body)
 
 
+def _norm_stmt(src: str) -> str:
+    return ast.unparse(ast.parse(src))
+
+
 class Tr:
     def __init__(self, env, bools=()):
         # env: python snippet -> lean term; bools: lean names that are Bool-valued
         self.env = {_norm(k): v for k, v in env.items()}
         self.bools = set(bools)
+        # python targets holding an optional number: "none" = Python's None (a comparison with it is never true),
+        # "inf" = `float("inf")` is rendered as `none` (everything is below it).  Used by the loop translator.
+        self.kinds = {}
 
     # expressions -------------------------------------------------------------------------
     def expr(self, n) -> str:
@@ -81,6 +88,8 @@ class Tr:
                 # applied to the translated arguments in the source's order
                 return f"({self.env['round']} {self.expr(n.args[0])} {self.expr(n.args[1])})"
             raise TranslationError(f"call {f}")
+        if isinstance(n, ast.List):
+            return "[" + ", ".join(self.expr(e) for e in n.elts) + "]"
         if isinstance(n, ast.Tuple) and len(n.elts) >= 2:
             return "(" + ", ".join(self.expr(e) for e in n.elts) + ")"  # a Lean tuple: the arity and the order are part of the leaf
         if isinstance(n, ast.IfExp):
@@ -97,6 +106,18 @@ class Tr:
             if v in self.bools:
                 return v
             return f"(decide ({v} ≠ 0))"  # truthiness of a number
+        if isinstance(n, ast.Compare) and len(n.ops) == 1 and self.kinds:
+            left, right = n.left, n.comparators[0]
+            if isinstance(n.ops[0], ast.Is) and isinstance(right, ast.Constant) and right.value is None \
+                    and self.kinds.get(ast.unparse(left)) == "none":
+                return f"({self.expr(left)}).isNone"
+            kind = self.kinds.get(ast.unparse(right))
+            if kind is not None:
+                fn = {"none": {ast.Lt: "ltOpt", ast.Gt: "gtOpt", ast.Eq: "eqOpt"},
+                      "inf": {ast.Lt: "ltInf", ast.Gt: "gtInf", ast.Eq: "eqInf"}}[kind].get(type(n.ops[0]))
+                if fn is None:
+                    raise TranslationError(f"comparison {type(n.ops[0]).__name__} with an optional number")
+                return f"({fn} {self.expr(left)} {self.expr(right)})"
         if isinstance(n, ast.Compare):
             if len(n.ops) != 1:
                 raise TranslationError("chained comparison")
@@ -151,10 +172,18 @@ def _returns(stmts):
 # locating code
 
 
+TOUCHED = []  # (relpath, first line, last line) of every source node a leaf was rendered from (tools/leafcoverage.py)
+
+
 class Src:
     def __init__(self, relpath):
+        self.rel = relpath
         self.path = os.path.join(core.REPO, relpath)
         self.tree = ast.parse(open(self.path).read())
+
+    def touch(self, node):
+        TOUCHED.append((self.rel, node.lineno, getattr(node, "end_lineno", node.lineno)))
+        return node
 
     def func(self, qual):
         """function by dotted name: 'Class.method', 'outer.inner', 'f'"""
@@ -183,6 +212,7 @@ class Src:
                 hits.append((type(n.op).__name__, n.value))
         if len(hits) <= k:
             raise TranslationError(f"no assignment #{k} to {target} in {qual}")
+        self.touch(hits[k][1])
         return hits[k]
 
     def test(self, qual, contains, k=0):
@@ -198,7 +228,7 @@ class Src:
                         hits.append(c)
         if len(hits) <= k:
             raise TranslationError(f"no test containing {contains!r} (#{k}) in {qual}")
-        return hits[k]
+        return self.touch(hits[k])
 
     def expr_containing(self, qual, contains, k=0, kind=ast.Call):
         f = self.func(qual)
@@ -207,7 +237,7 @@ class Src:
         hits.sort(key=lambda n: len(ast.unparse(n)))
         if len(hits) <= k:
             raise TranslationError(f"no expression containing {contains!r} in {qual}")
-        return hits[k]
+        return self.touch(hits[k])
 
     def returns(self, qual):
         """values of the `return` statements of function `qual`, in source order (nested functions excluded)"""
@@ -229,13 +259,13 @@ class Src:
             if isinstance(n, ast.Assign) and ast.unparse(n.targets[0]) == var:
                 for m in ast.walk(n.value):
                     if isinstance(m, ast.Lambda):
-                        return m.body
+                        return self.touch(m.body)
         raise TranslationError(f"no lambda assigned to {var}")
 
     def module_const(self, var):
         for n in self.tree.body:
             if isinstance(n, ast.Assign) and ast.unparse(n.targets[0]) == var:
-                return n.value
+                return self.touch(n.value)
         raise TranslationError(f"no constant {var}")
 
 
@@ -267,7 +297,10 @@ IN_B = {"int(project in ballot)": "inB", "project.cost": "cost"}
 
 def whole(path, qual, env, bools=(), ret_bool=False):
     def go():
-        f = Src(path).func(qual)
+        src = Src(path)
+        f = src.func(qual)
+        for st in f.body:
+            src.touch(st)
         return Tr(env, bools).body(f.body, ret_bool)
     return go
 
@@ -304,12 +337,13 @@ def ret(path, qual, k, env, n_returns=None, bools=()):
     """the value of the k-th `return` of `qual` as a condition; `n_returns`: the function must have exactly that many"""
 
     def go():
-        rs = Src(path).returns(qual)
+        src = Src(path)
+        rs = src.returns(qual)
         if n_returns is not None and len(rs) != n_returns:
             raise TranslationError(f"{qual} has {len(rs)} return statements, {n_returns} expected")
         if len(rs) <= k:
             raise TranslationError(f"no return #{k} in {qual}")
-        return Tr(env, bools).cond(rs[k])
+        return Tr(env, bools).cond(src.touch(rs[k]))
     return go
 
 
@@ -330,6 +364,280 @@ def const(path, var):
 def exprc(path, qual, contains, env, k=0, bools=(), kind=ast.Call):
     def go():
         return Tr(env, bools).expr(Src(path).expr_containing(qual, contains, k, kind))
+    return go
+
+
+class RawDef:
+    """a producer's result that is a complete Lean definition (rendered verbatim)"""
+
+    def __init__(self, text):
+        self.text = text
+
+
+class _LoopTr:
+    """
+    One `for` loop of the library as a structurally recursive Lean function (statement-level leaf).
+
+        def NAME params : T1 → … → Tn → List Elem → R
+          | v1, …, vn, [] => END
+          | v1, …, vn, x :: xs => BODY
+
+    The state variables v1 … vn are the Python targets the loop body assigns (names, attributes, `l.append(e)` on a list).
+    BODY is the loop body in continuation form: every path through it ends in the recursive call on `xs` with the updated state
+    (end of the body, `continue`), in the tuple of the current state (`break`), or in `some e` (`return e`; the loop then answers
+    `Option`-wrapped: `none` = ran to the end).  Blocks guarded by one of the `skip` tests (`verbose`, `analytics`) are left out
+    after checking that they assign no state variable and contain no `break` / `continue` / `return`; anything else the subset
+    does not cover raises TranslationError.
+    """
+
+    def __init__(self, name, params, state, elem_var, env, bools, skip, ret, wraps, kinds=None):
+        self.name, self.params = name, params
+        self.kinds = kinds or {}
+        self.state = state                      # [(python target text, lean variable, lean type)]
+        self.targets = {_norm(py): lv for py, lv, _ in state}
+        self.elem_var = elem_var
+        self.env, self.bools, self.skip, self.ret = env, bools, set(skip), ret
+        self.wraps = wraps or {}                # python target -> format applied to an assigned value (e.g. "(some {})")
+
+    def tr(self, local):
+        t = Tr({}, self.bools)
+        t.env = {_norm(k): v for k, v in self.env.items()}
+        t.env.update(local)
+        t.kinds = dict(self.kinds)
+        return t
+
+    def tuple_of(self, cur):
+        vals = [cur[_norm(py)] for py, _, _ in self.state]
+        if self.ret is not None:
+            vals = ["none"] + vals
+        return vals[0] if len(vals) == 1 else "(" + ", ".join(vals) + ")"
+
+    def ret_tuple(self, cur, value):
+        vals = [f"(some {value})"] + [cur[_norm(py)] for py, _, _ in self.state]
+        return vals[0] if len(vals) == 1 else "(" + ", ".join(vals) + ")"
+
+    def recurse(self, cur):
+        args = " ".join(f"({cur[_norm(py)]})" if " " in cur[_norm(py)] else cur[_norm(py)] for py, _, _ in self.state)
+        call = f"{self.name} {self.param_names} {args} xs" if self.param_names else f"{self.name} {args} xs"
+        return "(" + " ".join(call.split()) + ")"
+
+    def check_skipped(self, stmts):
+        for st in stmts:
+            for n in ast.walk(st):
+                if isinstance(n, (ast.Break, ast.Continue, ast.Return)):
+                    raise TranslationError("control flow inside a skipped (reporting-only) block")
+                tgt = None
+                if isinstance(n, ast.Assign):
+                    tgt = [ast.unparse(t) for t in n.targets]
+                if isinstance(n, (ast.AugAssign, ast.AnnAssign)):
+                    tgt = [ast.unparse(n.target)]
+                if isinstance(n, ast.Call) and isinstance(n.func, ast.Attribute) and n.func.attr in (
+                        "append", "extend", "remove", "pop", "clear", "add", "discard", "update", "insert", "sort"):
+                    tgt = [ast.unparse(n.func.value)]
+                for t in tgt or []:
+                    if _norm(t) in self.targets or t == self.elem_var:
+                        raise TranslationError(f"a skipped (reporting-only) block writes the loop state {t}")
+
+    def seq(self, stmts, cur, local):
+        """continuation form of a statement list; `cur`: state target -> current term; `local`: local name -> term"""
+        stmts = [x for x in stmts if not (isinstance(x, ast.Expr) and isinstance(x.value, ast.Constant))]
+        if not stmts:
+            return self.recurse(cur)
+        st, rest = stmts[0], stmts[1:]
+        env_now = {**local, **{k: v for k, v in cur.items()}}
+        t = self.tr(env_now)
+        if isinstance(st, ast.Break):
+            return self.tuple_of(cur)
+        if isinstance(st, ast.Continue):
+            return self.recurse(cur)
+        if isinstance(st, ast.Return):
+            if self.ret is None or st.value is None:
+                raise TranslationError("return inside a loop that is not declared to return")
+            return self.ret_tuple(cur, (t.cond if self.ret == "Bool" else t.expr)(st.value))
+        if isinstance(st, ast.If):
+            test_src = _norm(ast.unparse(st.test))
+            if test_src in self.skip:
+                self.check_skipped(st.body + st.orelse)
+                return self.seq(rest, cur, local)
+            c = t.cond(st.test)
+            return f"(if {c} then {self.seq(st.body + rest, dict(cur), dict(local))} else {self.seq(st.orelse + rest, dict(cur), dict(local))})"
+        if isinstance(st, ast.Raise):
+            raise TranslationError("raise inside a translated loop")
+        target = value = op = None
+        if isinstance(st, ast.Assign) and len(st.targets) == 1:
+            target, value, op = ast.unparse(st.targets[0]), st.value, "="
+        elif isinstance(st, ast.AnnAssign) and st.value is not None:
+            target, value, op = ast.unparse(st.target), st.value, "="
+        elif isinstance(st, ast.AugAssign):
+            target, value = ast.unparse(st.target), st.value
+            op = {ast.Add: "+", ast.Sub: "-", ast.Mult: "*", ast.Div: "/"}.get(type(st.op))
+            if op is None:
+                raise TranslationError("augmented operator")
+        elif isinstance(st, ast.Expr) and isinstance(st.value, ast.Call) and isinstance(st.value.func, ast.Attribute) \
+                and st.value.func.attr == "append" and len(st.value.args) == 1 and not st.value.keywords:
+            target = ast.unparse(st.value.func.value)
+            if _norm(target) not in self.targets:
+                raise TranslationError(f"append to {target}, which is not a state variable of the loop")
+            new = f"({cur[_norm(target)]} ++ [{t.expr(st.value.args[0])}])"
+            cur = dict(cur)
+            cur[_norm(target)] = new
+            return self.seq(rest, cur, local)
+        if target is None:
+            raise TranslationError(f"statement {type(st).__name__}: {ast.unparse(st)[:60]}")
+        key = _norm(target)
+        if key in self.targets:
+            v = t.expr(value)
+            if op != "=":
+                v = f"({cur[key]} {op} {v})"
+            elif key in self.wraps:
+                v = self.wraps[key].format(v)
+            cur = dict(cur)
+            cur[key] = v
+            return self.seq(rest, cur, local)
+        if isinstance(st, (ast.Assign, ast.AnnAssign)) and re.fullmatch(r"[A-Za-z_][A-Za-z_0-9]*", target):
+            local = dict(local)
+            local[target] = t.expr(value)
+            return self.seq(rest, cur, local)
+        raise TranslationError(f"assignment to {target}, which is neither a state variable of the loop nor a local name")
+
+    def render(self, body):
+        self.param_names = " ".join(re.findall(r"\((\w[\w ]*?) :", self.params)) if self.params else ""
+        cur0 = {_norm(py): lv for py, lv, _ in self.state}
+        types = [ty for _, _, ty in self.state]
+        res = list(types)
+        if self.ret is not None:
+            res = [f"Option {self.ret}"] + res
+        res_ty = res[0] if len(res) == 1 else " × ".join(f"({t})" if " " in t else t for t in res)
+        sig = " → ".join([f"({t})" if " " in t else t for t in types] + [f"List ({self.elem_ty})", f"({res_ty})" if " " in res_ty else res_ty])
+        pats = ", ".join(lv for _, lv, _ in self.state)
+        pre = (pats + ", ") if pats else ""
+        lines = [f"def {self.name} {self.params} : {sig}".replace("  ", " "),
+                 f"  | {pre}[] => {self.tuple_of(cur0)}",
+                 f"  | {pre}x :: xs => {self.seq(body, cur0, {})}"]
+        return "\n".join(lines)
+
+
+OPT_PRELUDE = """/-- comparisons with an optional number.  `…Opt`: `none` is Python's `None` (the code never compares with it: the test
+    `x is None or …` comes first), so every comparison with it is false; `…Inf`: `none` is `float("inf")`. -/
+def ltOpt (a : Rat) : Option Rat → Bool
+  | none => false
+  | some b => decide (a < b)
+def gtOpt (a : Rat) : Option Rat → Bool
+  | none => false
+  | some b => decide (a > b)
+def eqOpt (a : Rat) : Option Rat → Bool
+  | none => false
+  | some b => decide (a = b)
+def ltInf (a : Rat) : Option Rat → Bool
+  | none => true
+  | some b => decide (a < b)
+def gtInf (a : Rat) : Option Rat → Bool
+  | none => false
+  | some b => decide (a > b)
+def eqInf (a : Rat) : Option Rat → Bool
+  | none => false
+  | some b => decide (a = b)"""
+
+
+def raw(text):
+    return lambda: RawDef(text)
+
+
+def loop(path, qual, contains, name, params, state, elem, env, k=0, bools=(), skip=("verbose", "analytics"), ret=None, wraps=None,
+         kinds=None):
+    """the k-th `for` loop of `qual` whose iterable (source text) contains `contains`, as a recursive Lean function;
+    `elem = (python loop target text, Lean element type)`; element fields are mapped through `env` (snippet -> term over `x`)"""
+
+    def go():
+        src = Src(path)
+        f = src.func(qual)
+        hits = [n for n in ast.walk(f) if isinstance(n, ast.For) and contains in ast.unparse(n.iter)]
+        if len(hits) <= k:
+            raise TranslationError(f"no for-loop over {contains!r} (#{k}) in {qual}")
+        node = hits[k]
+        if ast.unparse(node.target) != elem[0]:
+            raise TranslationError(f"the loop variable of the loop over {contains!r} is {ast.unparse(node.target)}, {elem[0]} expected")
+        if node.orelse:
+            raise TranslationError("for … else")
+        src.touch(node)
+        lt = _LoopTr(name, params, state, elem[0], env, bools, skip, ret, wraps, kinds)
+        lt.elem_ty = elem[1]
+        return RawDef(lt.render(node.body))
+    return go
+
+
+def funloop(path, qual, contains, name, params, state, elem, env, pre=(), fn_ret="Rat", k=0, bools=(), skip=("verbose", "analytics"),
+            ret=None, wraps=None, kinds=None, ret_bool=False):
+    """
+    A WHOLE function whose body is: initialisations, one `for` loop, a final `return` — nothing else.  Renders the loop
+    (`<name>Loop`, as `loop` does) and `<name>` itself: the loop started from the initial values the source assigns, then the
+    returned expression.  Statements before the loop must be assignments to state variables (their values become the initial
+    state) or appear verbatim in `pre` (source text -> what they stand for in the model: a parameter of the leaf); any other
+    statement, before or after the loop, raises TranslationError — so a shortcut, an early return or an extra step added to the
+    function breaks the leaf.
+    """
+
+    def go():
+        src = Src(path)
+        f = src.func(qual)
+        body = [x for x in f.body if not (isinstance(x, ast.Expr) and isinstance(x.value, ast.Constant))]
+        pre_norm = {_norm_stmt(t) for t in pre}
+        lt = _LoopTr(name + "Loop", params, state, elem[0], env, bools, skip, ret, wraps, kinds)
+        lt.elem_ty = elem[1]
+        targets = {_norm(py): i for i, (py, _, _) in enumerate(state)}
+        init = {}
+        loop_node = None
+        post = []
+        for st in body:
+            src.touch(st)
+            if loop_node is None:
+                if isinstance(st, ast.For):
+                    if contains not in ast.unparse(st.iter) or ast.unparse(st.target) != elem[0] or st.orelse:
+                        raise TranslationError(f"{qual}: the loop is not the expected one ({ast.unparse(st.iter)[:40]})")
+                    loop_node = st
+                    continue
+                if _norm_stmt(ast.unparse(st)) in pre_norm:
+                    continue
+                tgt = val = None
+                if isinstance(st, ast.Assign) and len(st.targets) == 1:
+                    tgt, val = ast.unparse(st.targets[0]), st.value
+                if isinstance(st, ast.AnnAssign) and st.value is not None:
+                    tgt, val = ast.unparse(st.target), st.value
+                if tgt is None or _norm(tgt) not in targets:
+                    raise TranslationError(f"{qual}: statement before the loop outside the subset: {ast.unparse(st)[:70]}")
+                t = Tr(env, bools)
+                v = "none" if (isinstance(val, ast.Constant) and val.value is None) or ast.unparse(val) == "float('inf')" else t.expr(val)
+                init[_norm(tgt)] = v
+            else:
+                post.append(st)
+        if loop_node is None:
+            raise TranslationError(f"{qual}: no loop")
+        missing = [py for py, _, _ in state if _norm(py) not in init]
+        if missing:
+            raise TranslationError(f"{qual}: no initial value for {missing}")
+        if len(post) != 1 or not isinstance(post[0], ast.Return) or post[0].value is None:
+            raise TranslationError(f"{qual}: after the loop there must be exactly one `return`")
+        loop_text = lt.render(loop_node.body)
+        pn = lt.param_names
+        args = " ".join(f"({init[_norm(py)]})" if " " in init[_norm(py)] else init[_norm(py)] for py, _, _ in state)
+        call = " ".join(f"{name}Loop {pn} {args} xs".split())
+        n_comp = len(state) + (1 if ret is not None else 0)
+
+        def proj(i):
+            if n_comp == 1:
+                return "r"
+            return "r." + ".".join(["2"] * i + (["1"] if i < n_comp - 1 else []))
+        off = 1 if ret is not None else 0
+        env2 = dict(env)
+        for i, (py, _, _) in enumerate(state):
+            env2[py] = proj(i + off)
+        t2 = Tr(env2, bools)
+        final = (t2.cond if ret_bool else t2.expr)(post[0].value)
+        if ret is not None:
+            final = f"(match {proj(0)} with | some v => v | none => {final})"
+        ptxt = (params + " " if params else "")
+        fn = f"def {name} {ptxt}(xs : List ({elem[1]})) : {fn_ret} :=\n  (fun r => {final}) ({call})"
+        return RawDef(loop_text + "\n\n" + fn)
     return go
 
 
@@ -357,6 +665,15 @@ LEAVES = [
     ("C10", "bordaSat", "(inBallot : Bool) (len pos : Rat)", "Rat",
      whole(POS, "borda_sat_func", {"project in ballot": "inBallot", "len(ballot)": "len", "ballot.position(project)": "pos"}, bools=("inBallot",))),
     # ---- C15: instance predicates
+    # whole functions (initialisation, loop, return): a statement added anywhere in them breaks the leaf
+    ("C15", "isExhaustiveFn", None, None,
+     funloop(INST, "Instance.is_exhaustive", "available_projects", "isExhaustiveFn", "(cost budget : Rat)", [], ("p", "Bool × Rat"),
+             {"p not in projects": "(!x.1)", "p.cost": "x.2", "cost": "cost", "self.budget_limit": "budget"}, bools=("(!x.1)",), ret="Bool",
+             pre=("if available_projects is None:\n    available_projects = self", "cost = total_cost(projects)"), fn_ret="Bool", ret_bool=True)),
+    ("C15", "maxCardFn", None, None,
+     funloop(INST, "max_budget_allocation_cardinality", "projects_sorted", "maxCardFn", "(budget : Rat)",
+             [("cost", "acc", "Rat"), ("selected", "selected", "Rat")], ("p", "Rat"), {"p.cost": "x", "budget_limit": "budget"},
+             pre=("projects_sorted = sorted(projects, key=lambda proj: proj.cost)",))),
     ("C15", "isFeasible", "(total budget : Rat)", "Bool", whole(INST, "Instance.is_feasible", {"total_cost(projects)": "total", "self.budget_limit": "budget"}, ret_bool=True)),
     ("C15", "isTrivial", "(total budget : Rat) (noneFits : Bool)", "Bool",
      whole(INST, "Instance.is_trivial", {"total_cost(self)": "total", "self.budget_limit": "budget",
@@ -440,6 +757,13 @@ LEAVES = [
         (f"isNew{suffix}", "(differsFromAll : Bool)", test(COMP, fn, "results", {"all((set(res) != set(other) for other in results))": "differsFromAll"}, bools=("differsFromAll",))),
         (f"differs{suffix}", "(same : Bool)", exprc(COMP, fn, "set(res)", {"set(res) != set(other)": "(!same)"}, kind=ast.Compare, bools=("(!same)",))),
     )],
+    ("C19", "optPrelude", None, None, raw(OPT_PRELUDE)),
+    # the arg-max loop of the welfare comparison as a whole (statement-level leaf); `x` = (index of the outcome, its total satisfaction)
+    ("C19", "welfareLoop", None, None,
+     loop(COMP, "social_welfare_comparison", "results", "welfareLoop", "",
+          [("max_social_welfare", "best", "Option Rat"), ("argmax_social_welfare", "arg", "List Nat")], ("result", "Nat × Rat"),
+          {"sat_profile.total_satisfaction(result)": "x.2", "result": "x.1"},
+          wraps={"max_social_welfare": "(some {})"}, kinds={"max_social_welfare": "none"})),
     ("C19", "welfareImproves", "(first : Bool) (welfare best : Rat)", "Bool",
      test(COMP, "social_welfare_comparison", "max_social_welfare",
           {"max_social_welfare is None": "first", "social_welfare": "welfare", "max_social_welfare": "best"}, k=0, bools=("first",))),
@@ -480,6 +804,17 @@ LEAVES = [
     ("C02", "isSupported", "(totalSat : Rat)", "Bool", test(MES, "method_of_equal_shares_scheme", "total_sat > 0", {"total_sat": "totalSat"})),
     ("C02", "hasPositiveCost", "(cost : Rat)", "Bool", test(MES, "method_of_equal_shares_scheme", "p.cost > 0", {"p.cost": "cost"})),
     ("C02", "unaffordable", "(available cost : Rat)", "Bool", test(MES, "mes_inner_algo", "available_budget <", {"available_budget": "available", "project.cost": "cost"})),
+    ("C02", "optPrelude", None, None, raw(OPT_PRELUDE)),
+    # the supporter sweep as a whole (statement-level leaf): the price test comes BEFORE the supporter's money and utility leave the
+    # running totals, the first supporter who can pay ends the sweep, and only then are the round's best price and tied list updated
+    ("C02", "sweepLoop", None, None,
+     loop(MES, "mes_inner_algo", "project.supporter_indices", "sweepLoop", "(cost : Rat) (p : Nat)",
+          [("current_contribution", "contribution", "Rat"), ("denominator", "denominator", "Rat"), ("project.affordability", "aff", "Rat"),
+           ("best_afford", "best", "Option Rat"), ("tied_projects", "tied", "List Nat")],
+          ("i", "Rat × Rat × Rat"),
+          {"voters[i]": "x", "supporter.budget": "x.1", "project.supporters_sat(supporter)": "x.2.1", "supporter.multiplicity": "x.2.2",
+           "supporter.total_budget()": "(x.2.2 * x.1)", "project.cost": "cost", "project": "p"},
+          wraps={"best_afford": "(some {})"}, kinds={"best_afford": "inf"})),
     ("C02", "affordFactor", "(cost contribution denominator : Rat)", "Rat",
      assign(MES, "mes_inner_algo", "afford_factor", {"project.cost": "cost", "current_contribution": "contribution", "denominator": "denominator"})),
     ("C02", "canPay", "(factor u b : Rat)", "Bool",
@@ -505,6 +840,11 @@ LEAVES = [
     ("C03", "densitySupported", "(totalSat : Rat)", "Bool", test(GRE, "greedy_utilitarian_scheme_additive.satisfaction_density", "total_sat > 0", {"total_sat": "totalSat"})),
     ("C03", "densityValue", "(totalSat cost : Rat)", "Rat",
      exprc(GRE, "greedy_utilitarian_scheme_additive.satisfaction_density", "frac(total_sat", {"total_sat": "totalSat", "proj.cost": "cost"})),
+    # the selection loop of the fast path as a whole (statement-level leaf): order of the test, the append and the update
+    ("C03", "passLoop", None, None,
+     loop(GRE, "greedy_utilitarian_scheme_additive", "ordered_projects", "passLoop", "",
+          [("selection", "sel", "List Nat"), ("remaining_budget", "remaining", "Rat")], ("project", "Nat × Rat"),
+          {"project.cost": "x.2", "project": "x.1"})),
     ("C03", "passFits", "(cost remaining : Rat)", "Bool", test(GRE, "greedy_utilitarian_scheme_additive", "project.cost <= remaining_budget", {"project.cost": "cost", "remaining_budget": "remaining"})),
     ("C03", "passRemaining", "(remaining cost : Rat)", "Rat", assign(GRE, "greedy_utilitarian_scheme_additive", "remaining_budget", {"remaining_budget": "remaining", "project.cost": "cost"}, k=1)),
     ("C03", "passInitialRemaining", "(budget initCost : Rat)", "Rat",
@@ -582,7 +922,10 @@ def render(prop):
             continue
         try:
             body = producer()
-            out.append(f"def {name} {params} : {ret} := {body}")
+            if isinstance(body, RawDef):
+                out.append(body.text)
+            else:
+                out.append(f"def {name} {params} : {ret} := {body}")
         except (TranslationError, SyntaxError, FileNotFoundError, KeyError) as e:
             problems.append(f"{prop}.{name}: {e}")
             # placeholder of a different type: the bridge theorem for this leaf cannot check
